@@ -297,7 +297,9 @@ func (srv *Server) init() {
 		srv.Handler = DefaultServeMux
 	}
 
-	srv.udpPool.New = makeUDPBuffer(srv.UDPSize)
+	// A fresh pool: buffers left from an earlier run of this Server may have been
+	// made for another UDPSize.
+	srv.udpPool = sync.Pool{New: makeUDPBuffer(srv.UDPSize)}
 }
 
 func unlockOnce(l sync.Locker) func() {
